@@ -15,6 +15,9 @@ CONSTANTS
   ProbeFroms <- SimProbeFroms
   ProbeNos <- SimProbeNos
   KeepRmaxVariant = FALSE
+  Pids = {1, 2, 3, 4, 5, 6}
+  ProbePids <- SimProbePids
+  MaxRepl = 0
   Depth = 30
   Focus = "log"
 INVARIANT Emit
